@@ -103,6 +103,32 @@ Fixpoint norm_s (l : list sframe) : list sframe :=
 Fixpoint list_eqb {A} (eqb : A -> A -> bool) (a b : list A) : bool :=
   match a, b with [], [] => true | x :: a', y :: b' => eqb x y && list_eqb eqb a' b' | _, _ => false end.
 
+(* The model emits one data frame per message, at the moment of the call, and a window update at the moment
+   the implementation emits one; the implementation emits a message as several frames, possibly much later
+   (flow control).  Data frames and window updates may therefore sit in the model's queue in another order
+   than on the wire.  To hand the model the frame the implementation was handed, the first frame of that
+   kind is moved to the head of the model's queue, past data frames and window updates only. *)
+Definition c_dw (f : cframe) : bool := match f with FReq | FCwu => true | _ => false end.
+Definition s_dw (f : sframe) : bool := match f with FResp | FSwu => true | _ => false end.
+Fixpoint first_c (f : cframe) (q : list cframe) : option (list cframe) :=
+  match q with
+  | [] => None
+  | x :: r => if cf_eqb x f then Some q
+              else if c_dw x then match first_c f r with Some (y :: r') => Some (y :: x :: r') | _ => None end
+              else None
+  end.
+Fixpoint first_s (f : sframe) (q : list sframe) : option (list sframe) :=
+  match q with
+  | [] => None
+  | x :: r => if sf_eqb x f then Some q
+              else if s_dw x then match first_s f r with Some (y :: r') => Some (y :: x :: r') | _ => None end
+              else None
+  end.
+Definition with_qc (s : rst) (q : list cframe) : rst := mkRst (r_k s) (r_v s) q (q_s s) (h_c s) (h_s s) (n_inv s).
+Definition with_qs (s : rst) (q : list sframe) : rst := mkRst (r_k s) (r_v s) (q_c s) q (h_c s) (h_s s) (n_inv s).
+Definition set_model (st : rrs) (r : N) (s : rst) : rrs :=
+  mkRrs (lset r s (rr_m st)) (rr_ids st) (rr_q st) (rr_oc st) (rr_os st) (rr_sh st) (rr_inv st) (rr_off st) (rr_fails st).
+
 (* the send of rpc r was logged in the same action as its start: the RPC is made through Invoke *)
 Definition is_invoke (tr : trace) (act : N) (r : N) : bool :=
   existsb (fun x => match x with (a, Call (Cw r') ONew _ _ _ _ _) => N.eqb a act && N.eqb r r' | _ => false end) tr &&
@@ -207,15 +233,23 @@ Definition rr_step (tr : trace) (st : rrs) (e : N * ev) : rrs :=
                       else on_rpc st r [LVLoop LReject]     (* no handler started: the server refuses the stream *)
                   | _ =>
                       (* a message travels as several data frames, the model's CSend emits one: a data frame
-                         that finds no data frame at the head of the model's queue is a continuation *)
+                         that finds no data frame in the model's queue is a continuation *)
                       match ckind k, lget r (rr_m st) with
-                      | Some FReq, Some s => match q_c s with FReq :: _ => on_rpc st r [LVLoop LNormal] | _ => st end
+                      | Some f, Some s =>
+                          match first_c f (q_c s) with
+                          | Some q' => on_rpc (set_model st r (with_qc s q')) r [LVLoop LNormal]
+                          | None => if c_dw f then st else on_rpc st r [LVLoop LNormal]
+                          end
                       | _, _ => on_rpc st r [LVLoop LNormal]
                       end
                   end
               | S2C =>
                   match skind k, lget r (rr_m st) with
-                  | Some FResp, Some s => match q_s s with FResp :: _ => on_rpc st r [LKLoop false] | _ => st end
+                  | Some f, Some s =>
+                      match first_s f (q_s s) with
+                      | Some q' => on_rpc (set_model st r (with_qs s q')) r [LKLoop false]
+                      | None => if s_dw f then st else on_rpc st r [LKLoop false]
+                      end
                   | _, _ => on_rpc st r [LKLoop false]
                   end
               end
@@ -240,8 +274,8 @@ Definition rr_step (tr : trace) (st : rrs) (e : N * ev) : rrs :=
                   if pending r then st else
                   let oc := match lget r (rr_oc st) with Some l => l | None => [] end in
                   let os := match lget r (rr_os st) with Some l => l | None => [] end in
-                  if negb (list_eqb cf_eqb (norm_c (h_c s)) (norm_c oc)) then drop_rpc (rfail st [mkFail 1330 act (Z.of_N r) 0]) r
-                  else if negb (list_eqb sf_eqb (norm_s (h_s s)) (norm_s os)) then drop_rpc (rfail st [mkFail 1331 act (Z.of_N r) 0]) r
+                  if negb (list_eqb cf_eqb (norm_c (h_c s)) (norm_c oc)) then drop_rpc (rfail st [mkFail 1330 act (Z.of_N r) (Z.of_nat (length (norm_c (h_c s)) * 100 + length (norm_c oc)))]) r
+                  else if negb (list_eqb sf_eqb (norm_s (h_s s)) (norm_s os)) then drop_rpc (rfail st [mkFail 1331 act (Z.of_N r) (Z.of_nat (length (norm_s (h_s s)) * 100 + length (norm_s os)))]) r
                   else st) (rr_m st) st in
       (* table sizes, when every RPC of the trace is being replayed *)
       let all := N.of_nat (length (rr_sh st)) in
